@@ -621,6 +621,16 @@ pub fn run(cfg: &Config) -> PropRun {
         let ts: Vec<String> = spaces::load_test_strings(&cfg.corpus_dir).into_iter().filter(|t| is_macro_free(t)).collect();
         for a in &ts {
             stmts.push(a.clone());
+            for (i, _) in a.char_indices().skip(1) {
+                stmts.push(a[..i].to_string());
+            }
+            for atom in spaces::S5 {
+                for t in [format!("{a}{atom}"), format!("{atom}{a}")] {
+                    if is_macro_free(&t) {
+                        stmts.push(t);
+                    }
+                }
+            }
             for b in &ts {
                 let t = format!("{a}{b}");
                 if is_macro_free(&t) {
